@@ -344,6 +344,15 @@ impl Terminal {
         }
     }
 
+    /// The alternate screen keeps no scrollback: drop what scrolled off it.
+    /// (`gc` does this at the end of `feed_str`/`resize`; the per-character
+    /// `feed` has no such point, so its rows would otherwise pile up.)
+    pub fn gc_alternate(&mut self) {
+        if self.active_buffer_type == BufferType::Alternate {
+            let _ = self.buffer.gc();
+        }
+    }
+
     pub fn changes(&mut self) -> Vec<usize> {
         let changes = self.dirty_lines.to_vec();
         self.dirty_lines.clear();
